@@ -371,6 +371,14 @@ def c04(trace):
                     if filled_ids[f[1]] > submitted_ids.get(f[1], 0):
                         out.add(i, 'order %r filled %d times, submitted %d times' % (f[1], filled_ids[f[1]], submitted_ids.get(f[1], 0)), 'filled-twice')
         for p in post['pfs']:
+            # the holdings the broker reports (get_portfolio_as_dict) are the holdings: same assets, same quantities, now
+            if isinstance(p.get('api'), dict) and 'error' not in p['api']:
+                rep = {a: row.get('quantity') for a, row in p['api'].items()}
+                act = {q_['asset']: q_['buyQ'] - q_['sellQ'] for q_ in p['positions']}
+                if rep != act:
+                    out.add(i, 'portfolio %s: the broker reports holdings %r, the portfolio holds %r' % (p['id'], rep, act),
+                            'reported-holdings-stale')
+        for p in post['pfs']:
             if [tuple(x) for x in p['queue']] != pending.get(p['id'], []):
                 out.add(i, 'pending orders of %s are %r, expected %r' % (p['id'], p['queue'], pending.get(p['id'], [])),
                         'pending-queue')
